@@ -15,7 +15,9 @@ EXTENDS Grammar, Json
 
 CONSTANTS Family,   \* which generator
           Bound,    \* family-specific size bound
-          DecoMode  \* "single" | "all": operand decorations of exprpairs
+          DecoMode, \* "single" | "all": operand decorations of exprpairs
+          BaseFamily, \* family whose programs the "corrupt" family edits
+          EditMenu   \* how many tokens of TokenMenu the "ins" edit tries
 
 VARIABLE ch
 gvars == <<ch>>
@@ -343,27 +345,237 @@ Decode(c) ==
 
 ---------------------------------------------------------------------------
 
-Choices(c) ==
-  CASE Family = "exprpairs" -> PairsChoices(c)
-    [] Family = "exprtriples" -> TriplesChoices(c)
-    [] Family = "unary" -> UnaryChoices(c)
-    [] Family = "positions" -> PositionsChoices(c)
-    [] Family = "pipelines" -> PipelinesChoices(c)
-    [] Family = "operators" -> (IF OperatorsComplete(c) THEN {} ELSE OperatorsChoices(c))
-    [] Family = "statements" -> StatementsChoices(c)
-    [] Family = "deep" -> DeepChoices(c)
+(* family plant: one documented rule of Compile broken at one position and *)
+(* depth, next to the same program without the violation (C13)             *)
 
+Builtins1 == {"not", "isnull", "isnotnull", "tolower", "toupper", "countif"}
+Builtins0 == {"now", "count"}
+Builtins3 == {"iff", "iif"}
+AllBuiltins == Builtins1 \cup Builtins0 \cup Builtins3 \cup {"strcat"}
+ArityOK(b, n) ==
+  CASE b \in Builtins1 -> n = 1 [] b \in Builtins0 -> n = 0 [] b \in Builtins3 -> n = 3 [] b = "strcat" -> n >= 1
+ClosedArgs(n) == SubSeq(<<Num("1"), Str("s"), Num("2"), Num("3")>>, 1, n)
+
+SlotPositions == {"where", "project", "extendNamed", "extendBare", "sumAgg", "sumKey", "sort", "take", "topBy",
+                  "joinOn", "let", "joinRight", "joinRightOn"}
+Depths == {"bare", "call", "paren", "index", "inlist", "bin", "deep"}
+DepthsFor(pos) == IF pos = "let" THEN {"bare", "call", "paren", "bin"} ELSE Depths
+AtDepth(d, X) ==
+  CASE d = "bare" -> X
+    [] d = "call" -> Call("f", <<X>>)
+    [] d = "paren" -> Paren(X)
+    [] d = "index" -> Index(Col("m"), X)
+    [] d = "inlist" -> InE(Col("a"), <<Num("1"), X>>)
+    [] d = "bin" -> Bin("Plus", Num("1"), X)
+    [] d = "deep" -> Call("g", <<Bin("Star", Index(Col("m"), Paren(X)), Num("2"))>>)
+InSlot(pos, e) ==
+  CASE pos = "where" -> <<Tab("T", <<Where(e)>>)>>
+    [] pos = "project" -> <<Tab("T", <<Project(<<PCol("p", e)>>)>>)>>
+    [] pos = "extendNamed" -> <<Tab("T", <<Extend(<<ECol(Id("p"), e)>>)>>)>>
+    [] pos = "extendBare" -> <<Tab("T", <<Extend(<<ECol(None, e)>>)>>)>>
+    [] pos = "sumAgg" -> <<Tab("T", <<Summarize(<<ECol(Id("p"), e)>>, <<ECol(None, Col("b"))>>, FALSE)>>)>>
+    [] pos = "sumKey" -> <<Tab("T", <<Summarize(<<ECol(None, Call("count", <<>>))>>, <<ECol(Id("p"), e)>>, FALSE)>>)>>
+    [] pos = "sort" -> <<Tab("T", <<Sort(<<TermD(e)>>)>>)>>
+    [] pos = "take" -> <<Tab("T", <<Take(e)>>)>>
+    [] pos = "topBy" -> <<Tab("T", <<Top(Num("3"), TermD(e))>>)>>
+    [] pos = "joinOn" -> <<Tab("T", <<Join(None, Tab("B", <<>>), <<Col("k"), e>>)>>)>>
+    [] pos = "let" -> <<Let("v", e), Tab("T", <<Where(Bin("Eq", Col("a"), Col("v")))>>)>>
+    [] pos = "joinRight" -> <<Tab("T", <<Join(Id("inner"), Tab("B", <<Where(e)>>), <<Col("k")>>)>>)>>
+    [] pos = "joinRightOn" -> <<Tab("T", <<Join(None, Tab("B", <<Join(None, Tab("C", <<>>), <<Col("k"), e>>)>>), <<Col("k")>>)>>)>>
+
+LRVariants == {"left", "right", "bareleft", "quoted", "twin"}
+LRExpr(v) ==
+  CASE v = "left" -> Bin("Eq", Qual("$left", "a"), Num("1"))
+    [] v = "right" -> Bin("GT", Qual("$right", "b"), Num("1"))
+    [] v = "bareleft" -> Col("$left")
+    [] v = "quoted" -> [k |-> "QIdent", parts |-> <<QId("$left"), Id("a")>>]   \* quoted: an ordinary name
+    [] v = "twin" -> Bin("Eq", Qual("t", "a"), Num("1"))
+JoinPositions == {"joinOn", "joinRightOn"}
+
+LetVariants == {"column", "qualified", "quoted", "later", "self", "literal", "earlier", "builtinconst", "expr"}
+LetItems(v) ==
+  LET q == Tab("T", <<Where(Bin("Eq", Col("a"), Col("v")))>>) IN
+  CASE v = "column" -> <<Let("v", Col("a")), q>>
+    [] v = "qualified" -> <<Let("u", Num("1")), Let("v", Qual("u", "x")), q>>
+    [] v = "quoted" -> <<Let("u", Num("1")), Let("v", [k |-> "QIdent", parts |-> <<QId("u")>>]), q>>
+    [] v = "later" -> <<Let("v", Col("w")), Let("w", Num("1")), q>>
+    [] v = "self" -> <<Let("v", Bin("Plus", Col("v"), Num("1"))), q>>
+    [] v = "literal" -> <<Let("v", Str("s")), q>>
+    [] v = "earlier" -> <<Let("u", Num("1")), Let("v", Bin("Plus", Col("u"), Num("1"))), q>>
+    [] v = "builtinconst" -> <<Let("v", Col("null")), q>>
+    [] v = "expr" -> <<Let("v", Call("strcat", <<Str("a"), Call("f", <<Num("1")>>)>>)), q>>
+LetGood == {"literal", "earlier", "builtinconst", "expr"}
+
+QueryVariants == {"none", "onlylet", "onlyempty", "two", "twowithlet", "one", "oneletafter", "oneempties"}
+QueryItems(v) ==
+  CASE v = "none" -> <<>>
+    [] v = "onlylet" -> <<Let("v", Num("1"))>>
+    [] v = "onlyempty" -> <<Empty, Empty>>
+    [] v = "two" -> <<Tab("T", <<>>), Tab("U", <<Count>>)>>
+    [] v = "twowithlet" -> <<Tab("T", <<>>), Let("v", Num("1")), Tab("U", <<>>)>>
+    [] v = "one" -> <<Tab("T", <<Count>>)>>
+    [] v = "oneletafter" -> <<Tab("T", <<>>), Let("v", Col("nonsense"))>>
+    [] v = "oneempties" -> <<Empty, Tab("T", <<>>), Empty, Empty>>
+QueryGood == {"one", "oneletafter", "oneempties"}
+
+JoinKinds == {"foo", "Inner", "left", "kind", "inner", "leftouter", "innerunique", "none"}
+JoinKindGood == {"inner", "leftouter", "innerunique", "none"}
+
+RowCounts == {"10", "1.5", "str", "1e3", "16", "neg", "col", "0.0", "0"}
+RowCountExpr(v) ==
+  CASE v = "str" -> Str("s") [] v = "neg" -> Un("Minus", Num("1")) [] v = "col" -> Col("n")
+    [] OTHER -> Num(v)
+RowCountGood == {"10", "16", "neg", "col", "0"}
+
+PlantChoices(c) ==
+  IF c = <<>> THEN {"arity", "leftright", "let", "queries", "joinkind", "rowcount"}
+  ELSE CASE c[1] = "arity" -> (CASE Len(c) = 1 -> AllBuiltins [] Len(c) = 2 -> 0..4 [] Len(c) = 3 -> SlotPositions
+                                 [] Len(c) = 4 -> DepthsFor(c[4]) [] OTHER -> {})
+        [] c[1] = "leftright" -> (CASE Len(c) = 1 -> LRVariants [] Len(c) = 2 -> SlotPositions \ {"let"}
+                                    [] Len(c) = 3 -> Depths [] OTHER -> {})
+        [] c[1] = "let" -> (IF Len(c) = 1 THEN LetVariants ELSE {})
+        [] c[1] = "queries" -> (IF Len(c) = 1 THEN QueryVariants ELSE {})
+        [] c[1] = "joinkind" -> (IF Len(c) = 1 THEN JoinKinds ELSE {})
+        [] c[1] = "rowcount" -> (CASE Len(c) = 1 -> {"take", "top"} [] Len(c) = 2 -> RowCounts [] OTHER -> {})
+
+PlantItems(c) ==
+  CASE c[1] = "arity" -> InSlot(c[4], Canon(AtDepth(c[5], Call(c[2], ClosedArgs(c[3])))))
+    [] c[1] = "leftright" -> InSlot(c[3], Canon(AtDepth(c[4], LRExpr(c[2]))))
+    [] c[1] = "let" -> LetItems(c[2])
+    [] c[1] = "queries" -> QueryItems(c[2])
+    [] c[1] = "joinkind" -> <<Tab("T", <<Join(IF c[2] = "none" THEN None ELSE Id(c[2]), Tab("B", <<>>), <<Col("k")>>)>>)>>
+    [] c[1] = "rowcount" -> <<Tab("T", <<IF c[2] = "take" THEN Take(RowCountExpr(c[3]))
+                                          ELSE Top(RowCountExpr(c[3]), TermD(Col("a")))>>)>>
+
+\* "ok": compiles; "err": must be rejected
+PlantExpect(c) ==
+  CASE c[1] = "arity" -> IF ArityOK(c[2], c[3]) THEN "ok" ELSE "err"
+    [] c[1] = "leftright" -> IF c[2] \in {"twin", "quoted"} \/ c[3] \in JoinPositions THEN "ok" ELSE "err"
+    [] c[1] = "let" -> IF c[2] \in LetGood THEN "ok" ELSE "err"
+    [] c[1] = "queries" -> IF c[2] \in QueryGood THEN "ok" ELSE "err"
+    [] c[1] = "joinkind" -> IF c[2] \in JoinKindGood THEN "ok" ELSE "err"
+    [] c[1] = "rowcount" -> IF c[3] \in RowCountGood THEN "ok" ELSE "err"
+\* planted violations that the documented grammar already rejects
+PlantParses(c) ==
+  IF (c[1] = "joinkind" /\ c[2] \notin JoinKindGood) \/ (c[1] = "rowcount" /\ c[3] \notin RowCountGood)
+  THEN "err" ELSE "ok"
+
+---------------------------------------------------------------------------
+(* family stress: pathological nesting and error cascades (C12), tokens    *)
+(* only                                                                    *)
+
+RECURSIVE Rep(_, _)
+Rep(ts, n) == IF n = 0 THEN <<>> ELSE ts \o Rep(ts, n - 1)
+KV(k, v) == [k |-> k, v |-> v]
+StressKinds == {"parens", "calls", "index", "signs", "joins", "open", "close", "brack", "pipes", "ops", "chain",
+                "in", "commas", "semis", "lets", "mixed", "errtok", "inopen", "joinopen"}
+StressDepths == IF Bound <= 1 THEN {1, 2, 3, 8} ELSE {1, 3, 17, 120, Bound}
+StressChoices(c) == CASE Len(c) = 0 -> StressKinds [] Len(c) = 1 -> StressDepths [] OTHER -> {}
+Head2 == <<KV("Identifier", "T"), KV("Pipe", ""), KV("Identifier", "where")>>
+A == KV("Identifier", "a")
+StressToks(c) ==
+  LET n == c[2] IN
+  CASE c[1] = "parens" -> Head2 \o Rep(<<KV("LParen", "")>>, n) \o <<A>> \o Rep(<<KV("RParen", "")>>, n)
+    [] c[1] = "calls" -> Head2 \o Rep(<<KV("Identifier", "f"), KV("LParen", "")>>, n) \o <<A>> \o Rep(<<KV("RParen", "")>>, n)
+    [] c[1] = "index" -> Head2 \o Rep(<<A, KV("LBracket", "")>>, n) \o <<KV("Number", "1")>> \o Rep(<<KV("RBracket", "")>>, n)
+    [] c[1] = "signs" -> Head2 \o Rep(<<KV("Minus", ""), KV("LParen", "")>>, n) \o <<A>> \o Rep(<<KV("RParen", "")>>, n)
+    [] c[1] = "joins" -> <<KV("Identifier", "T")>>
+                         \o Rep(<<KV("Pipe", ""), KV("Identifier", "join"), KV("LParen", ""), KV("Identifier", "B")>>, n)
+                         \o Rep(<<KV("RParen", ""), KV("Identifier", "on"), KV("Identifier", "k")>>, n)
+    [] c[1] = "open" -> Head2 \o Rep(<<KV("LParen", "")>>, n)
+    [] c[1] = "close" -> Head2 \o <<A>> \o Rep(<<KV("RParen", "")>>, n)
+    [] c[1] = "brack" -> Head2 \o <<A>> \o Rep(<<KV("LBracket", "")>>, n)
+    [] c[1] = "pipes" -> <<KV("Identifier", "T")>> \o Rep(<<KV("Pipe", "")>>, n)
+    [] c[1] = "ops" -> Head2 \o <<A>> \o Rep(<<KV("Plus", "")>>, n)
+    [] c[1] = "chain" -> Head2 \o <<A>> \o Rep(<<KV("Plus", ""), A, KV("And", ""), A, KV("Star", ""), A>>, n)
+    [] c[1] = "in" -> Head2 \o Rep(<<A, KV("In", ""), KV("LParen", "")>>, n) \o <<A>> \o Rep(<<KV("RParen", "")>>, n)
+    [] c[1] = "commas" -> <<KV("Identifier", "T"), KV("Pipe", ""), KV("Identifier", "project"), A>> \o Rep(<<KV("Comma", "")>>, n)
+    [] c[1] = "semis" -> Rep(<<KV("Semi", "")>>, n) \o <<KV("Identifier", "T")>>
+    [] c[1] = "lets" -> Rep(<<KV("Identifier", "let"), KV("Identifier", "v"), KV("Assign", ""), KV("Identifier", "v"), KV("Semi", "")>>, n)
+                        \o <<KV("Identifier", "T")>>
+    [] c[1] = "mixed" -> Head2 \o Rep(<<KV("LParen", ""), KV("LBracket", "")>>, n) \o <<A>> \o Rep(<<KV("RParen", ""), KV("RBracket", "")>>, n)
+    [] c[1] = "errtok" -> Head2 \o Rep(<<KV("Raw", "!"), KV("Raw", "'x")>>, n)
+    [] c[1] = "inopen" -> Head2 \o Rep(<<A, KV("In", "")>>, n)
+    [] c[1] = "joinopen" -> <<KV("Identifier", "T")>> \o Rep(<<KV("Pipe", ""), KV("Identifier", "join"), KV("LParen", ""), KV("Identifier", "B")>>, n)
+
+---------------------------------------------------------------------------
+
+ChoicesOf(fam, c) ==
+  CASE fam = "exprpairs" -> PairsChoices(c)
+    [] fam = "exprtriples" -> TriplesChoices(c)
+    [] fam = "unary" -> UnaryChoices(c)
+    [] fam = "positions" -> PositionsChoices(c)
+    [] fam = "pipelines" -> PipelinesChoices(c)
+    [] fam = "operators" -> (IF OperatorsComplete(c) THEN {} ELSE OperatorsChoices(c))
+    [] fam = "statements" -> StatementsChoices(c)
+    [] fam = "deep" -> DeepChoices(c)
+    [] fam = "plant" -> PlantChoices(c)
+    [] fam = "stress" -> StressChoices(c)
+
+BuildOf(fam, c) ==
+  CASE fam = "exprpairs" -> <<Tab("T", <<Where(Canon(PairExpr(c)))>>)>>
+    [] fam = "exprtriples" -> <<Tab("T", <<Where(Canon(TripleExpr(c)))>>)>>
+    [] fam = "unary" -> <<Tab("T", <<Extend(<<ECol(Id("r"), Canon(UnaryExpr(c)))>>)>>)>>
+    [] fam = "positions" -> InPos(c[2], Canon(ExprMenu[c[1]]))
+    [] fam = "pipelines" -> <<Tab("T", PipelineOps(c))>>
+    [] fam = "operators" -> <<Tab("T", <<OperatorOf(c)>>)>>
+    [] fam = "statements" -> StatementItems(c)
+    [] fam = "deep" -> <<Tab("T", <<Where(Canon(Decode(c)[1]))>>)>>
+    [] fam = "plant" -> PlantItems(c)
+
+\* does every program of the family compile (no documented rule broken)?
+CompilesOf(fam, c) ==
+  CASE fam = "positions" -> IF c[2] = "let" THEN "open" ELSE "ok"
+    [] fam = "statements" -> "open"
+    [] fam = "plant" -> PlantExpect(c)
+    [] OTHER -> "ok"
+
+---------------------------------------------------------------------------
+(* family corrupt: every single token edit of every program of BaseFamily  *)
+
+RECURSIVE BaseLenFrom(_, _)
+BaseLenFrom(c, n) ==
+  IF n > Len(c) THEN 0
+  ELSE IF ChoicesOf(BaseFamily, SubSeq(c, 1, n)) = {} THEN n ELSE BaseLenFrom(c, n + 1)
+BaseLen(c) == BaseLenFrom(c, 0)     \* 0: the base part is not complete yet (no family completes at <<>>)
+
+TokenMenu == <<
+  [k |-> "Comma", v |-> ""], [k |-> "Pipe", v |-> ""], [k |-> "LParen", v |-> ""], [k |-> "RParen", v |-> ""],
+  [k |-> "LBracket", v |-> ""], [k |-> "RBracket", v |-> ""], [k |-> "Plus", v |-> ""], [k |-> "Eq", v |-> ""],
+  [k |-> "Assign", v |-> ""], [k |-> "And", v |-> ""], [k |-> "By", v |-> ""], [k |-> "In", v |-> ""],
+  [k |-> "Identifier", v |-> "x"], [k |-> "Number", v |-> "1"], [k |-> "String", v |-> "s"], [k |-> "Semi", v |-> ""],
+  [k |-> "Dot", v |-> ""], [k |-> "Raw", v |-> "!"], [k |-> "Raw", v |-> "'abc"], [k |-> "Raw", v |-> "0x"],
+  [k |-> "Raw", v |-> "@"], [k |-> "Raw", v |-> "`q"] >>
+
+EditKinds == {"del", "dup", "swap", "trunc", "ins"}
+CorruptChoices(c) ==
+  LET bl == BaseLen(c) IN
+  IF bl = 0 THEN ChoicesOf(BaseFamily, c)
+  ELSE LET n == Len(Toks(BuildOf(BaseFamily, SubSeq(c, 1, bl))))
+           e == SubSeq(c, bl + 1, Len(c))
+       IN CASE Len(e) = 0 -> EditKinds
+            [] Len(e) = 1 -> (CASE e[1] \in {"del", "dup"} -> 1..n
+                                [] e[1] \in {"swap", "trunc"} -> 1..(n - 1)
+                                [] e[1] = "ins" -> 0..n)
+            [] Len(e) = 2 -> (IF e[1] = "ins" THEN 1..EditMenu ELSE {})
+            [] OTHER -> {}
+
+CorruptToks(c) ==
+  LET bl == BaseLen(c)
+      ts == Strip(Toks(BuildOf(BaseFamily, SubSeq(c, 1, bl))))
+      e == SubSeq(c, bl + 1, Len(c))
+      n == Len(ts)
+      i == e[2]
+  IN CASE e[1] = "del" -> SubSeq(ts, 1, i - 1) \o SubSeq(ts, i + 1, n)
+       [] e[1] = "dup" -> SubSeq(ts, 1, i) \o SubSeq(ts, i, n)
+       [] e[1] = "swap" -> SubSeq(ts, 1, i - 1) \o <<ts[i + 1], ts[i]>> \o SubSeq(ts, i + 2, n)
+       [] e[1] = "trunc" -> SubSeq(ts, 1, i)
+       [] e[1] = "ins" -> SubSeq(ts, 1, i) \o <<TokenMenu[e[3]]>> \o SubSeq(ts, i + 1, n)
+
+---------------------------------------------------------------------------
+
+Choices(c) == IF Family = "corrupt" THEN CorruptChoices(c) ELSE ChoicesOf(Family, c)
 Complete(c) == Choices(c) = {}
-
-Build(c) ==
-  CASE Family = "exprpairs" -> <<Tab("T", <<Where(Canon(PairExpr(c)))>>)>>
-    [] Family = "exprtriples" -> <<Tab("T", <<Where(Canon(TripleExpr(c)))>>)>>
-    [] Family = "unary" -> <<Tab("T", <<Extend(<<ECol(Id("r"), Canon(UnaryExpr(c)))>>)>>)>>
-    [] Family = "positions" -> InPos(c[2], Canon(ExprMenu[c[1]]))
-    [] Family = "pipelines" -> <<Tab("T", PipelineOps(c))>>
-    [] Family = "operators" -> <<Tab("T", <<OperatorOf(c)>>)>>
-    [] Family = "statements" -> StatementItems(c)
-    [] Family = "deep" -> <<Tab("T", <<Where(Canon(Decode(c)[1]))>>)>>
 
 Init == ch = <<>>
 Next == \E x \in Choices(ch) : ch' = Append(ch, x)
@@ -371,12 +583,21 @@ Spec == Init /\ [][Next]_gvars
 
 ---------------------------------------------------------------------------
 
+TreeFamilies == {"exprpairs", "exprtriples", "unary", "positions", "pipelines", "operators", "statements", "deep", "plant"}
+
 \* generated trees are exactly the trees the grammar dictates for their tokens
 GeneratedWellFormed ==
-  Complete(ch) => \A i \in DOMAIN Statements(Build(ch)) : StmtOK(Statements(Build(ch))[i])
+  (Complete(ch) /\ Family \in TreeFamilies /\ (Family = "plant" => PlantParses(ch) = "ok")) =>
+     \A i \in DOMAIN Statements(BuildOf(Family, ch)) : StmtOK(Statements(BuildOf(Family, ch))[i])
 
 EmitCase ==
   Complete(ch) =>
-    LET items == Build(ch) IN
-    PrintT("CASE " \o ToJson([fam |-> Family, ch |-> ch, toks |-> Toks(items), tree |-> Statements(items)]))
+    IF Family \in TreeFamilies
+    THEN LET items == BuildOf(Family, ch) IN
+         PrintT("CASE " \o ToJson([fam |-> Family, ch |-> ch, toks |-> Toks(items), tree |-> Statements(items),
+                                    xp |-> IF Family = "plant" THEN PlantParses(ch) ELSE "ok",
+                                    xc |-> CompilesOf(Family, ch)]))
+    ELSE PrintT("CASE " \o ToJson([fam |-> Family, ch |-> ch,
+                                    toks |-> IF Family = "corrupt" THEN CorruptToks(ch) ELSE StressToks(ch),
+                                    xp |-> "open", xc |-> "open"]))
 =============================================================================
